@@ -5,6 +5,7 @@ import (
 	"fmt"
 	"math/bits"
 	"sync"
+	"sync/atomic"
 	"unsafe"
 
 	"github.com/IrineSistiana/mosproxy/internal/pool"
@@ -55,13 +56,27 @@ func capClass(size int) int {
 // InstallOwn installs the hook. uninit is the fill pattern for fresh buffers.
 func InstallOwn(uninit byte, race bool) *Own {
 	o := &Own{Uninit: uninit, live: map[*byte]int{}, race: race}
+	curOwn.Store(o)
 	pool.VerifGetBuf = o.get
 	pool.VerifReleaseBuf = o.release
 	pool.VerifGo = func(fn func()) bool { go fn(); return true }
 	return o
 }
 
+var curOwn atomic.Pointer[Own]
+
+// OwnNote records an ownership violation found by a harness-side probe (e.g. a message handed to a caller that is at the
+// same time in the free list) with the installed hook, so that the scenario's Audit reports it.
+func OwnNote(s string) {
+	if o := curOwn.Load(); o != nil {
+		o.mu.Lock()
+		o.violate(s)
+		o.mu.Unlock()
+	}
+}
+
 func UninstallOwn() {
+	curOwn.Store(nil)
 	pool.VerifGetBuf = nil
 	pool.VerifReleaseBuf = nil
 	pool.VerifGo = nil
